@@ -134,6 +134,22 @@ CLAIMED.update(
     }
 )
 
+CLAIMED.update(
+    {
+        "C11": (
+            "FIELD-COMPLETE on ExecutionTrace.merge, join classification (union / sum / min-with-inf-default) of every coverage field with a MUST-PASS path query per field, sibling agreement of the recording-side minimum, fold shape of analyze_results",
+            "Decides that merging is a commutative, associative, monotone join by construction: ExecutionTrace.merge reads every dataclass field; each coverage-relevant "
+            "field (executed code objects, predicate counts, true/false distances, covered lines, checked lines) is combined on EVERY path through merge by its required "
+            "join applied to the receiver's own container with the like-named container of the other trace - never replaced, never skipped under a condition; the minimum "
+            "rule reads the accumulator with an inf default under the same mapping and key it writes, on the merge side and on the recording side; analyze_results folds "
+            "every result into a fresh trace with merge only; init_trace copies the import trace instead of aliasing it. Monotonicity of the fitness formulas over the merged "
+            "trace (value-level) is not decided.",
+            "Trusts the CFG builder; join classes are recognised syntactically (update / get(k,0)+v / min(get(k,inf),v)); any other combiner is reported.",
+            "DESIGN.md §3 C11",
+        ),
+    }
+)
+
 NOT_APPLICABLE: dict[str, str] = {
     "C06": "Correctness of the post-dominator/CDG construction on every code object is functional correctness of a graph "
     "algorithm; no shape of the code implies it and no sound static argument in reach bounds 'all code objects'.",
